@@ -90,11 +90,18 @@ def cases(tier, seed):
     for i in range(n_star):
         polys[f"star{i}"] = corpus.star_polygon(5 + (7 * i) % 30, 77 * seed + i)
     out = []
+    # very small and very large copies of two polygons (absolute tolerances must not change the answers)
+    for name in ("L", "pentagon_irregular"):
+        for sc in (1e-6, 1e-4, 1e4):
+            polys[f"{name}*{sc:g}"] = [(float(x) * sc, float(y) * sc) for x, y in polys[name]]
     for name, pts in polys.items():
         for orient in (1, -1):
             q = list(pts) if orient == 1 else list(reversed(pts))
+            size = max(max(abs(float(c)) for c in p) for p in pts)
             for pname, R, t in corpus.placements():
-                out.append((f"{name}/{'ccw' if orient == 1 else 'cw'}/{pname}", q, R, t))
+                # offsets proportional to the polygon (|offset| / size <= ~10, as in the property)
+                ts = tuple(float(x) * size / 4.0 for x in t)
+                out.append((f"{name}/{'ccw' if orient == 1 else 'cw'}/{pname}", q, R, ts))
     return out
 
 
